@@ -18,6 +18,7 @@ import CompmechVerif.Gen.PanelNum.CPanel
 import CompmechVerif.Spec.GaussBardell
 import CompmechVerif.Model.PanelGlueLemmas
 import CompmechVerif.Spec.PanelGlueKernels
+import CompmechVerif.Spec.PanelGlueKernelsCone
 import Mathlib.Tactic.Ring
 import Mathlib.Tactic.FieldSimp
 import Mathlib.Tactic.FinCases
@@ -598,6 +599,89 @@ theorem calc_kG0_eq_prestress_hessian_plate [CharZero F] (P : Panel F) (A : Args
   · exact kG0_matrix_plate (panelLoads P base) I hI ha' hb' P.m P.n _ hi hk hj hl α β
   · exact kG0_matrix_plate (panelLoads P base) I hI ha' hb' P.m P.n _ hi hk hj hl α β
   · exact kG0y1y2_matrix_plate (panelLoads P base) I hI ha' hb' P.m P.n _ hi hk hj hl α β
+
+/-- **`calc_kG0` with the regenerated cylindrical-panel kernels** (`cpanelTable`): the matrix returned holds, at the positions of ANY two
+degrees of freedom, the Hessian of the pre-stress work of the panel's OWN loads over the panel's OWN domain. -/
+theorem calc_kG0_eq_prestress_hessian_cpanel [CharZero F] (P : Panel F) (A : Args F) (R : Result F) (base : PCtx F)
+    (I : Integrals F) (hI : I.Comm) (ha : base.a ≠ 0) (hb : base.b ≠ 0) (hc : A.c = none) (hfin : A.finalize = true)
+    (hplace : A.row0 = A.col0) (h : (calcKG0 P A).res = .ok R)
+    {i k j l : Nat} (hi : i < P.m) (hk : k < P.m) (hj : j < P.n) (hl : l < P.n) (α β : Fin 3) :
+    toFun (R.eval (panelKern cpanelTable base I P.m P.n)) (A.row0.getD 0 + 3 * (j * P.m + i) + α.val)
+        (A.row0.getD 0 + 3 * (l * P.m + k) + β.val)
+      = hessian (ctxAt (panelLoads P base) I i k j l) .full (domOf P) (gradOps (panelLoads P base))
+          (prestressW (panelLoads P base)) (fld3 α) (fld3 β) := by
+  rw [calc_kG0_panelKern cpanelTable P A R base I hc hfin h hplace]
+  have ha' : (panelLoads P base).a ≠ 0 := ha
+  have hb' : (panelLoads P base).b ≠ 0 := hb
+  unfold cooOf domOf
+  rw [cpanelTable_fkG0, cpanelTable_fkG0y1y2]
+  cases P.y1 <;> cases P.y2 <;> simp only
+  · exact kG0_matrix_cpanel (panelLoads P base) I hI ha' hb' P.m P.n _ hi hk hj hl α β
+  · exact kG0_matrix_cpanel (panelLoads P base) I hI ha' hb' P.m P.n _ hi hk hj hl α β
+  · exact kG0_matrix_cpanel (panelLoads P base) I hI ha' hb' P.m P.n _ hi hk hj hl α β
+  · exact kG0y1y2_matrix_cpanel (panelLoads P base) I hI ha' hb' P.m P.n _ hi hk hj hl α β
+
+/-- **`calc_kG0` with the regenerated `w`-only plate kernels** (`plateWTable`, one degree of freedom per pair of series indices). -/
+theorem calc_kG0_eq_prestress_hessian_platew [CharZero F] (P : Panel F) (A : Args F) (R : Result F) (base : PCtx F)
+    (I : Integrals F) (hI : I.Comm) (ha : base.a ≠ 0) (hb : base.b ≠ 0) (hc : A.c = none) (hfin : A.finalize = true)
+    (hplace : A.row0 = A.col0) (h : (calcKG0 P A).res = .ok R)
+    {i k j l : Nat} (hi : i < P.m) (hk : k < P.m) (hj : j < P.n) (hl : l < P.n) (α β : Fin 1) :
+    toFun (R.eval (panelKern plateWTable base I P.m P.n)) (A.row0.getD 0 + 1 * (j * P.m + i) + α.val)
+        (A.row0.getD 0 + 1 * (l * P.m + k) + β.val)
+      = hessian (ctxAt (panelLoads P base) I i k j l) .full (domOf P) (gradOps (panelLoads P base))
+          (prestressW (panelLoads P base)) (fld1 α) (fld1 β) := by
+  rw [calc_kG0_panelKern plateWTable P A R base I hc hfin h hplace]
+  have ha' : (panelLoads P base).a ≠ 0 := ha
+  have hb' : (panelLoads P base).b ≠ 0 := hb
+  unfold cooOf domOf
+  rw [plateWTable_fkG0, plateWTable_fkG0y1y2]
+  cases P.y1 <;> cases P.y2 <;> simp only
+  · exact kG0_matrix_plate_w (panelLoads P base) I hI ha' hb' P.m P.n _ hi hk hj hl α β
+  · exact kG0_matrix_plate_w (panelLoads P base) I hI ha' hb' P.m P.n _ hi hk hj hl α β
+  · exact kG0_matrix_plate_w (panelLoads P base) I hI ha' hb' P.m P.n _ hi hk hj hl α β
+  · exact kG0y1y2_matrix_plate_w (panelLoads P base) I hI ha' hb' P.m P.n _ hi hk hj hl α β
+
+/-- **`calc_kG0` with the regenerated conical-panel kernels** (`conePanelKern s kpanelTable`, Spec/PanelGlueKernelsCone.lean: the loop nest
+once per constant-radius section, `s = 41` by `loop_nest_standard`): the matrix returned holds the SUM over the sections of the Hessians of
+the pre-stress work of the panel's own loads over section × the panel's own `y` domain, each section with its own radius and width
+(`sectionBase`). -/
+theorem calc_kG0_eq_prestress_hessian_kpanel [CharZero F] (s : Nat) (P : Panel F) (A : Args F) (R : Result F) (base : PCtx F)
+    (I : Nat → Integrals F) (hI : ∀ sec, (I sec).Comm) (ha : base.a ≠ 0) (hb : ∀ sec, (sectionBase base s sec).b ≠ 0)
+    (hc : A.c = none) (hfin : A.finalize = true) (hplace : A.row0 = A.col0) (h : (calcKG0 P A).res = .ok R)
+    {i k j l : Nat} (hi : i < P.m) (hk : k < P.m) (hj : j < P.n) (hl : l < P.n) (α β : Fin 3) :
+    toFun (R.eval (conePanelKern s kpanelTable base I P.m P.n)) (A.row0.getD 0 + 3 * (j * P.m + i) + α.val)
+        (A.row0.getD 0 + 3 * (l * P.m + k) + β.val)
+      = ((List.range s).map fun sec =>
+          hessian (ctxAt (sectionBase (panelLoads P base) s sec) (I sec) i k j l) .sub (domOf P)
+            (gradOps (sectionBase (panelLoads P base) s sec)) (prestressW (sectionBase (panelLoads P base) s sec))
+            (fld3 α) (fld3 β)).sum := by
+  rw [calc_kG0_conePanelKern s kpanelTable P A R base I hc hfin h hplace]
+  have ha' : (panelLoads P base).a ≠ 0 := ha
+  have hb' : ∀ sec, (sectionBase (panelLoads P base) s sec).b ≠ 0 := hb
+  unfold coneCooOf domOf
+  rw [kpanelTable_fkG0, kpanelTable_fkG0y1y2]
+  cases P.y1 <;> cases P.y2 <;> simp only
+  · exact kG0_matrix_kpanel (panelLoads P base) I hI s ha' hb' P.m P.n _ hi hk hj hl α β
+  · exact kG0_matrix_kpanel (panelLoads P base) I hI s ha' hb' P.m P.n _ hi hk hj hl α β
+  · exact kG0_matrix_kpanel (panelLoads P base) I hI s ha' hb' P.m P.n _ hi hk hj hl α β
+  · exact kG0y1y2_matrix_kpanel (panelLoads P base) I hI s ha' hb' P.m P.n _ hi hk hj hl α β
+
+open GlueExample in
+/-- non-vacuity (conical model): the witness panel with `r = 3`, `alphadeg = −30` — strip from `y1 = 0.0`, loads `(3, None, −3)` — on the
+rational instance of Spec/PanelGlueKernelsCone.lean (41 sections, every one with non-zero width): the call succeeds, the panel is a
+strip, and every entry of the returned matrix is the 41-term sum of pre-stress Hessians -/
+example {i k j l : Nat} (hi : i < conePanelEx.m) (hk : k < conePanelEx.m) (hj : j < conePanelEx.n) (hl : l < conePanelEx.n)
+    (α β : Fin 3) :
+    ∃ R, (calcKG0 conePanelEx {}).res = .ok R ∧ domOf conePanelEx = .sub ∧
+      toFun (R.eval (conePanelKern 41 kpanelTable qBase (fun _ => qI) conePanelEx.m conePanelEx.n))
+          ((({} : Args ℚ).row0.getD 0) + 3 * (j * conePanelEx.m + i) + α.val)
+          ((({} : Args ℚ).row0.getD 0) + 3 * (l * conePanelEx.m + k) + β.val)
+        = ((List.range 41).map fun sec =>
+            hessian (ctxAt (sectionBase (panelLoads conePanelEx qBase) 41 sec) qI i k j l) .sub (domOf conePanelEx)
+              (gradOps (sectionBase (panelLoads conePanelEx qBase) 41 sec))
+              (prestressW (sectionBase (panelLoads conePanelEx qBase) 41 sec)) (fld3 α) (fld3 β)).sum :=
+  ⟨_, rfl, rfl, calc_kG0_eq_prestress_hessian_kpanel 41 conePanelEx {} _ qBase (fun _ => qI) (fun _ => qI_comm)
+    (by norm_num [qBase]) (fun sec => (qBase_section_b_pos 41 sec).ne') rfl rfl rfl rfl hi hk hj hl α β⟩
 
 end glue
 
